@@ -162,3 +162,40 @@ package encoder
 //@   assert call(AppendBits,0): arg1 == 7 && arg2 == 4
 //@   assert call(AppendBits,1): arg1 == eci.values[0] && arg2 == 8
 //@   ensures bits.size == old(bits.size) + 12
+
+// ---------------------------------------------------------------- BCH remainders of format and version information (8.9, 8.10), C07
+// calculateBCHCode(value, poly) is the remainder of value * x^deg modulo poly over GF(2) (same spec function as the decoder's table lemmas)
+//@ func calculateBCHCode(value int, poly int) (r int, e error)
+//@   property C07
+//@   mode bv
+//@   opt fuel=8
+//@   requires (poly == 1335 && 0 <= value && value < 32) || (poly == 7973 && 0 <= value && value < 64)
+//@   ensures e == nil && (poly == 1335 ==> r == decoder.gf2rem(value << 10, 1335, 14, 10)) && (poly == 7973 ==> r == decoder.gf2rem(value << 12, 7973, 17, 12))
+//@   modifies nothing
+//@   loop 0: invariant msbSetInPoly == (poly == 1335 ? 11 : 13) && poly == old(poly) && 0 <= value
+//@   loop 0: invariant poly == 1335 ==> value < 32768 && decoder.gf2rem(value, 1335, 14, 10) == decoder.gf2rem(old(value) << 10, 1335, 14, 10)
+//@   loop 0: invariant poly == 7973 ==> value < 262144 && decoder.gf2rem(value, 7973, 17, 12) == decoder.gf2rem(old(value) << 12, 7973, 17, 12)
+//@   loop 0: decreases value
+
+// the 15 format bits: (level bits, mask) . BCH remainder, XORed with 101010000010010, most significant first
+//@ func makeTypeInfoBits(ecLevel decoder.ErrorCorrectionLevel, maskPattern int, bits *gozxing.BitArray) (e gozxing.WriterException)
+//@   property C07
+//@   mode bv
+//@   globals matrixUtil_TYPE_INFO_POLY, matrixUtil_TYPE_INFO_MASK_PATTERN
+//@   opt fuel=8
+//@   requires bits != nil && gozxing.wfBA(bits) && gozxing.padBA(bits) && bits.size == 0 && 0 <= int(ecLevel) && int(ecLevel) <= 3
+//@   let t = (int(ecLevel) << 3) | maskPattern
+//@   let w = ((t << 10) | decoder.gf2rem(t << 10, 1335, 14, 10)) ^ 21522
+//@   ensures (maskPattern < 0 || maskPattern > 7) == (e != nil)
+//@   ensures e == nil ==> bits.size == 15 && (forall k int :: 0 <= k && k < 15 ==> gozxing.bit(bits, k) == ((w >> uint(14 - k)) & 1 == 1))
+
+// the 18 version bits: version number . BCH remainder, most significant first
+//@ func makeVersionInfoBits(version *decoder.Version, bits *gozxing.BitArray) (e gozxing.WriterException)
+//@   property C07
+//@   mode bv
+//@   globals matrixUtil_VERSION_INFO_POLY
+//@   opt fuel=8
+//@   requires version != nil && 7 <= version.versionNumber && version.versionNumber <= 40 && bits != nil && gozxing.wfBA(bits) && gozxing.padBA(bits) && bits.size == 0
+//@   let v = version.versionNumber
+//@   let w = (v << 12) | decoder.gf2rem(v << 12, 7973, 17, 12)
+//@   ensures e == nil && bits.size == 18 && (forall k int :: 0 <= k && k < 18 ==> gozxing.bit(bits, k) == ((w >> uint(17 - k)) & 1 == 1))
